@@ -7,7 +7,7 @@ ID = "C11"
 TAG = "stream"
 EXTRACT = "FA/Extract/ExtractStream.v"
 DRIVER = "driver_stream.ml"
-COQ_FILES = ["FA/Proofs/HeapFacts.v", "FA/Proofs/StreamFrame.v", "FA/Proofs/CopyTreeFacts.v", "FA/Proofs/CopyTreeStore.v", "FA/Properties/C11.v"]
+COQ_FILES = ["FA/Proofs/HeapFacts.v", "FA/Proofs/StreamFrame.v", "FA/Proofs/CopyTreeFacts.v", "FA/Proofs/CopyTreeStore.v", "FA/Proofs/CopyTreeFresh.v", "FA/Properties/C11.v"]
 
 LEVEL = ("Coq theorems over the executable state machine Model/Stream.v on a heap of AST node objects (Model/Heap.v): "
          "streams_immutable (for every history and every prefix, the dump and item type - and every non-field attribute - of "
